@@ -1,33 +1,32 @@
 #[cfg(test)]
-mod verif_demo_cfb_6 {
+mod verif_demo_cfb_10 {
     use super::*;
-    // Directory::from_slice on the short last chunk of `dirs.chunks(128)`
+    // Cfb::new: `Vec::with_capacity(h.fat_len)` with the header's "number of FAT sectors" (u32, unchecked): a 1536-byte well-formed
+    // file that declares 16 M FAT sectors reserves 64 MiB (4 bytes per declared sector; up to 16 GiB)
     #[test]
-    #[should_panic(expected = "out of range for slice of length 100")]
-    fn verif_demo_cfb_from_slice_short_chunk() {
-        let _ = Directory::from_slice(&[0u8; 100], 512);
-    }
-    // through the public entry point: header + FAT sector + a directory sector cut after 100 bytes (truncated file)
-    #[test]
-    #[should_panic(expected = "out of range for slice of length 100")]
-    fn verif_demo_cfb_new_truncated_directory_sector() {
-        let mut f = vec![0u8; 1124];
+    fn verif_demo_cfb_new_fat_capacity_from_header() {
+        let mut f = vec![0u8; 1536];
         f[..8].copy_from_slice(&[0xD0, 0xCF, 0x11, 0xE0, 0xA1, 0xB1, 0x1A, 0xE1]);
         f[26] = 3;
         f[30] = 9;
         f[32] = 6;
+        f[44..48].copy_from_slice(&0x0100_0000u32.to_le_bytes()); // number of FAT sectors (really 1)
         f[48..52].copy_from_slice(&1u32.to_le_bytes()); // first directory sector
         f[60..64].copy_from_slice(&ENDOFCHAIN.to_le_bytes());
         f[68..72].copy_from_slice(&ENDOFCHAIN.to_le_bytes());
         for b in f[80..512].iter_mut() {
             *b = 0xFF; // DIFAT[0] = 0, rest FREESECT
         }
+        // sector 0 = FAT: [FATSECT, ENDOFCHAIN, FREESECT..]
         for b in f[512..1024].iter_mut() {
             *b = 0xFF;
         }
         f[512..516].copy_from_slice(&0xFFFF_FFFDu32.to_le_bytes());
         f[516..520].copy_from_slice(&ENDOFCHAIN.to_le_bytes());
+        // sector 1 = directory (4 zeroed entries)
         let mut r: &[u8] = &f;
-        let _ = Cfb::new(&mut r, 1124);
+        let cfb = Cfb::new(&mut r, 1536).unwrap();
+        assert_eq!(cfb.fats.len(), 128);
+        assert!(cfb.fats.capacity() >= 0x0100_0000);
     }
 }
